@@ -16,13 +16,20 @@ import lib
 
 
 def enumerate_cases(ctx):
-    cfg = ctx.pick("TypePrint.cfg", "TypePrint_T.cfg")
-    r = ctx.tlc("TypePrint", cfg, timeout=3000)
-    if not r.ok:
-        raise lib.Machinery(f"TypePrint law Parse(RefPrint(t)) = t violated (specification error):\n{r.error}")
-    cases = [p for p in r.printed if isinstance(p, dict) and "kind" in p and "t" in p]
-    if not cases:
-        raise lib.Machinery("TypePrint emitted no cases")
+    cases, seen = [], set()
+    for cfg in ctx.pick(["TypePrint.cfg"], ["TypePrint_T.cfg", "TypePrint_D3.cfg"]):
+        r = ctx.tlc("TypePrint", cfg, timeout=3000)
+        if not r.ok:
+            raise lib.Machinery(f"TypePrint law Parse(RefPrint(t)) = t violated (specification error):\n{r.error}")
+        new = [p for p in r.printed if isinstance(p, dict) and "kind" in p and "t" in p]
+        if not new:
+            raise lib.Machinery(f"TypePrint/{cfg} emitted no cases")
+        ctx.log(f"{cfg}: {len(new)} cases, {r.wall:.0f}s")
+        for c in new:
+            k = json.dumps(c["t"])
+            if k not in seen:
+                seen.add(k)
+                cases.append(c)
     for i, c in enumerate(cases):
         c["id"] = i
     return cases
@@ -32,6 +39,8 @@ def observe(cases):
     import pool
     import ty_print as TP
 
+    if len(cases) < 10000:  # a process pool would only add start-up time
+        return TP.observe_chunk(cases)
     CH = 250
     jobs = [cases[i:i + CH] for i in range(0, len(cases), CH)]
     res = pool.map_jobs(TP.observe_chunk, jobs, chunksize=1)
